@@ -144,7 +144,7 @@ prop("C10",
 
 prop("C12",
      specgen=(30, 1000),
-     scripts=lambda tier, rnd: S.damping() + S.damping_exact() + S.cease_subcodes() + S.pm_gates() + sample(S.fin_mid_message(), rnd, 24 if tier == "thorough" else 8) + (S.damping_matrix() if tier == "thorough" else sample(S.damping_matrix(), rnd, 60)) + S.collision_racy(rnd, 300 if tier == "thorough" else 12) +
+     scripts=lambda tier, rnd: S.damping() + S.damping_exact() + S.cease_subcodes() + (S.rx_notif_grid() if tier == "thorough" else [x for x in S.rx_notif_grid() if "-openSent-" in x["id"]] + sample([x for x in S.rx_notif_grid() if "-openSent-" not in x["id"]], rnd, 40)) + S.pm_gates() + sample(S.fin_mid_message(), rnd, 24 if tier == "thorough" else 8) + (S.damping_matrix() if tier == "thorough" else sample(S.damping_matrix(), rnd, 60)) + S.collision_racy(rnd, 300 if tier == "thorough" else 12) +
      (S.damping_random(rnd, 500) if tier == "thorough" else S.damping_random(rnd, 15)),
      mc=lambda tier: [mc_pair(["openLo", "ka", "notif"])] + MC_DAMP if tier == "quick" else
      [mc_pair(["openLo", "ka", "notif", "cease"], dials=2), mc_pair(["openLo", "ka", "fault", "openBad"], dials=2)] + MC_DAMP +
@@ -182,6 +182,7 @@ prop("C04",
      mc=lambda tier: [mc_pair(["openLo", "ka", "upd"], conns=1, msgs=3)] +
      ([mc_timed(8, 1, 3, False, ("open3", "ka", "upd"), stall=True)] if tier == "thorough" else [mc_timed(5, 1, 3, False, ("open3", "ka"), stall=True)]),
      nontrivial=lambda s, r: any(e["e"] == "ret" and e["n"] in ("write", "writeCb") for e in syscheck.events_of(r)),
+     end_oracles={"wedge"},       # "WriteUpdate may be called from inside the callbacks without deadlock"
      rule="WriteUpdate from callbacks and from application goroutines x body lengths {0,1,4077} x keepalive collisions x remote "
           "that stops reading (writes of every kind blocked, then completed / reset / closed under them) x "
           "teardown kinds x stale writers; every conn.Write must be exactly one well-formed frame")
